@@ -188,6 +188,29 @@ fn gen_c05(rng: &mut Rng, thorough: bool) -> Case {
             }
         }
     }
+    // A third of the cases: two cancellable (keyed) events that a model schedules on itself for
+    // the same time; their handler first cancels the first key - its own, half-way through - and
+    // then goes on with its sends (to small mailboxes: it suspends) while the other event waits
+    // in the mailbox.
+    if rng.pct(33) {
+        let n = c.nodes.len();
+        let cands: Vec<usize> = (0..n).filter(|&i| !c.nodes[i].on.is_empty() && !c.nodes[i].outs.is_empty()).collect();
+        if !cands.is_empty() {
+            let i = cands[rng.usize(cands.len())];
+            let k = rng.usize(c.nodes[i].on.len());
+            let unit = 1_000_000_007u64;
+            for slot in 0..2u8 {
+                let mode = if rng.pct(50) { Mode::Keyed(slot) } else { Mode::KeyedPeriodic(slot, unit) };
+                c.nodes[i].init.push(Op::Sched { kind: k as u8, when: When::Rel(unit), mode });
+            }
+            c.nodes[i].on[k].insert(0, Op::Cancel { slot: 0, how: rng.below(2) as u8 });
+            if !c.nodes[i].on[k].iter().any(|o| matches!(o, Op::Send { .. })) {
+                c.nodes[i].on[k].push(Op::Send { port: 0, kind: k as u8 });
+            }
+            c.script.push(Cmd::Step);
+            c.script.push(Cmd::Step);
+        }
+    }
     c.profile = "isolation".into();
     c
 }
